@@ -966,7 +966,8 @@ def _analyze_zipfile_for_import(zipfile, project, schema):
 
         """
         # Must use forward slashes, not os.path.sep.
-        fn_statepoint = path + "/" + Job.FN_STATE_POINT
+        # An empty path denotes the root of the archive.
+        fn_statepoint = path + "/" + Job.FN_STATE_POINT if path else Job.FN_STATE_POINT
         if fn_statepoint in names:
             return json.loads(zipfile.read(fn_statepoint).decode())
 
@@ -1059,7 +1060,8 @@ def _tarfile_path_join(path, fn):
 
     """
     path = path.rstrip("/")
-    return path + "/" + fn
+    # An empty path denotes the root of the archive.
+    return path + "/" + fn if path else fn
 
 
 def _analyze_tarfile_for_import(tarfile, project, schema, tmpdir):
